@@ -1,6 +1,8 @@
 //! Verification harness: drives the real Laythe code in-process and speaks the same line
 //! protocols as the Lean driver (`/verif/lean/Driver`).
 mod chanq;
+mod dump;
+mod peephole;
 mod run;
 
 fn main() {
@@ -8,6 +10,8 @@ fn main() {
   let code = match args.get(1).map(|s| s.as_str()) {
     Some("chanq") => chanq::main(),
     Some("run") => run::main(&args[2..]),
+    Some("peephole") => peephole::main(),
+    Some("dump") => dump::main(&args[2..]),
     _ => {
       eprintln!("usage: vharness <chanq|run> ...");
       2
